@@ -19,9 +19,12 @@ import (
 	"math/big"
 	"math/rand"
 	"os"
+	"runtime"
 	"sort"
 	"strconv"
 	"strings"
+	"sync"
+	"sync/atomic"
 	"time"
 
 	bwio "github.com/google/badwolf/io"
@@ -207,6 +210,13 @@ func parseKind(kind, s string) (res J, v val) {
 			return J{"c": "nilnil"}, val{}
 		}
 		v = val{l: l}
+	case "blit":
+		var l *literal.Literal
+		l, err = literal.NewBoundedBuilder(2).Parse(s)
+		if err == nil && l == nil {
+			return J{"c": "nilnil"}, val{}
+		}
+		v = val{l: l}
 	case "obj":
 		var o *triple.Object
 		o, err = triple.ParseObject(s, literal.DefaultBuilder())
@@ -284,7 +294,7 @@ func (tb *tables) addText(s string) {
 					tb.quote[hx(u)] = hx(strconv.Quote(u))
 				}
 			}
-			if len(sub) >= 20 && len(sub) <= 40 {
+			if len(sub) >= 10 && len(sub) <= 45 {
 				if t, err := time.Parse(time.RFC3339Nano, sub); err == nil {
 					tb.ptime[hx(sub)] = obsTime(t)
 					tb.addTime(t)
@@ -406,6 +416,10 @@ func emitValue(src string, v val) {
 	tb.addVal(v)
 	tb.addText(text)
 	res, v2 := parseKind(k, text)
+	if src != "accepted" {
+		fb, _ := json.Marshal(res)
+		passLog = append(passLog, passEntry{k, text, string(fb), v})
+	}
 	j := J{"kind": "value", "src": src, "vk": k, "v": v.obs(), "text": hx(text), "parsed": res}
 	if corpusName != "" {
 		j["name"] = corpusName
@@ -437,6 +451,8 @@ func emitParse(src, s string) {
 			acc = append(acc, v)
 		}
 	}
+	rb, _ := parseKind("blit", s)
+	o["blit"] = rb
 	emit(J{"kind": "parse", "src": src, "in": hx(s), "out": o, "tables": tb.json()})
 	for _, v := range acc {
 		emitValue("accepted", v)
@@ -458,6 +474,30 @@ func randFrom(alpha []string, maxn int) string {
 		b.WriteString(pick(alpha))
 	}
 	return b.String()
+}
+
+// pieces that are valid Go escape sequences when read between double quotes: a parser that unquotes values it should
+// keep verbatim turns them into something else
+var escPieces = []string{"\\n", "\\t", "\\\\", "\\x41", "\\u00e9", "\\101", "\\a", "\\b", "\\f", "\\r", "\\v", "\\U0001F600", "\\x00", "\\377",
+	"a", "b", "C:", "1", "é", "caf", "new", "table", "_", "-"}
+
+// genEscText returns a text in which every backslash starts a valid Go escape sequence
+func genEscText(maxn int) string {
+	for {
+		n := 1 + rnd.Intn(maxn)
+		var b strings.Builder
+		hasEsc := false
+		for i := 0; i < n; i++ {
+			p := pick(escPieces)
+			if p[0] == '\\' {
+				hasEsc = true
+			}
+			b.WriteString(p)
+		}
+		if hasEsc {
+			return b.String()
+		}
+	}
 }
 
 var plainAlpha = []string{"a", "b", "c", "x", "1", "2", "_", "-", "é"}
@@ -483,6 +523,9 @@ func genNode() *node.Node {
 		id := randFrom(richAlpha, 5)
 		if rnd.Intn(3) == 0 {
 			id = randFrom(plainAlpha, 4)
+		}
+		if rnd.Intn(8) == 0 {
+			id = genEscText(3)
 		}
 		n, err := node.NewNodeFromStrings(genType(), id)
 		if err == nil {
@@ -538,6 +581,9 @@ func genPredID() string {
 			id = randFrom(richAlpha, 4)
 		default:
 			id = randFrom(richAlpha[:12], 4) + randFrom(plainAlpha, 2)
+		}
+		if rnd.Intn(8) == 0 {
+			id = genEscText(3)
 		}
 		if id != "" {
 			return id
@@ -600,6 +646,9 @@ func genLit() *literal.Literal {
 		default:
 			s = randFrom(richAlpha, 6)
 		}
+		if rnd.Intn(4) == 0 {
+			s = genEscText(4)
+		}
 		l, _ = b.Build(literal.Text, s)
 	default:
 		n := rnd.Intn(6)
@@ -629,6 +678,20 @@ func genObj() *triple.Object {
 func genTriple() *triple.Triple {
 	t, _ := triple.New(genNode(), genPred(), genObj())
 	return t
+}
+
+// a triple of the line-safe part of the documented domain (no newline in its printed form, no '<' in node types)
+func genSafeTriple() *triple.Triple {
+	for {
+		t := genTriple()
+		if strings.Contains(t.String(), "\n") || strings.Contains(t.Subject().Type().String(), "<") {
+			continue
+		}
+		if n, err := t.Object().Node(); err == nil && strings.Contains(n.Type().String(), "<") {
+			continue
+		}
+		return t
+	}
 }
 
 func genVal() val {
@@ -701,15 +764,30 @@ func mutate(s string) string {
 	}
 }
 
+// every kind of white space strings.TrimSpace removes (and two bytes it does not: a lone 0xc2, 0xa0)
+var blanks = []string{" ", "\t", "\n", "\r", "\v", "\f", "\u0085", "\u00a0", "\u1680", "\u2003", "\u2028", "\u202f", "\u205f", "\u3000", "\xc2", "\xa0"}
+
+func wrapBlanks(s string) string {
+	return randFrom(blanks, 2) + s + randFrom(blanks, 2)
+}
+
 func modeParse(tier string, n int, alpha string, maxlen int) {
 	for _, s := range corpusParse {
 		emitParse("corpus", s)
 	}
+	for _, s := range []string{"/a<b>", "_:a", "\"p\"@[]", "\"1\"^^type:int64", "/a<b>\t\"p\"@[]\t\"x\"^^type:text"} {
+		for _, b := range blanks {
+			emitParse("corpus", b+s)
+			emitParse("corpus", s+b)
+		}
+	}
 	exhaustive(alpha, maxlen)
 	for i := 0; i < n; i++ {
-		switch rnd.Intn(3) {
+		switch rnd.Intn(4) {
 		case 0:
 			emitParse("rand", randFrom(richAlpha, 8))
+		case 1:
+			emitParse("wrap", wrapBlanks(genVal().str()))
 		default:
 			s := genVal().str()
 			k := 1 + rnd.Intn(2)
@@ -745,6 +823,11 @@ func corpusValues() []struct {
 		{"pred-id-anchor-marker", immOf("a\"@[b")},
 		{"pred-id-space", immOf("x y")},
 		{"pred-id-nonascii", tmpOf("é\xff\u00a0\\", t0)},
+		{"lit-text-escapes-path", litOf(literal.Text, "C:\\new\\table")},
+		{"lit-text-escapes-2", litOf(literal.Text, "a\\\\b")},
+		{"lit-text-escapes-u", litOf(literal.Text, "caf\\u00e9 \\x41 \\101")},
+		{"pred-id-escapes", immOf("C:\\new\\table\\x41")},
+		{"node-id-escapes", nodeOf("/a", "caf\\u00e9\\n")},
 		{"lit-text-type-marker", litOf(literal.Text, "x\"^^type:text")},
 		{"lit-text-type-marker-2", litOf(literal.Text, "\"^^type:bool")},
 		{"lit-nan-payload", litOf(literal.Float64, math.Float64frombits(0x7FF0000000000001))},
@@ -762,17 +845,177 @@ func corpusValues() []struct {
 	}
 }
 
+// siblings of a value: different values that are equal under a weaker identity (same instant in another zone, same UUID,
+// same printed prefix).  Code that caches, interns or compares by such an identity mixes them up; they are emitted next
+// to the value they resemble, in the same process.
+func siblings(v val) []val {
+	var out []val
+	predSibs := func(p *predicate.Predicate) []*predicate.Predicate {
+		var ps []*predicate.Predicate
+		if p.Type() == predicate.Temporal {
+			ta, _ := p.TimeAnchor()
+			_, off := ta.Zone()
+			for _, z := range []int{0, 3600, -34200} {
+				if z == off {
+					continue
+				}
+				var t2 time.Time
+				if z == 0 {
+					t2 = ta.UTC()
+				} else {
+					t2 = ta.In(time.FixedZone("", z))
+				}
+				q, _ := predicate.NewTemporal(string(p.ID()), t2)
+				ps = append(ps, q)
+			}
+			q, _ := predicate.NewTemporal(string(p.ID()), ta.Add(1))
+			ps = append(ps, q)
+			q2, _ := predicate.NewImmutable(string(p.ID()))
+			ps = append(ps, q2)
+		} else {
+			q, _ := predicate.NewTemporal(string(p.ID()), time.Unix(0, 0).UTC())
+			ps = append(ps, q)
+		}
+		return ps
+	}
+	litSibs := func(l *literal.Literal) []*literal.Literal {
+		var ls []*literal.Literal
+		b := literal.DefaultBuilder()
+		switch l.Type() {
+		case literal.Text:
+			s, _ := l.Text()
+			x, _ := b.Build(literal.Blob, []byte(s))
+			ls = append(ls, x)
+			y, _ := b.Build(literal.Text, s+" ")
+			ls = append(ls, y)
+		case literal.Blob:
+			s, _ := l.Blob()
+			x, _ := b.Build(literal.Text, string(s))
+			ls = append(ls, x)
+		case literal.Bool:
+			v, _ := l.Bool()
+			x, _ := b.Build(literal.Text, strconv.FormatBool(v))
+			ls = append(ls, x)
+		case literal.Int64:
+			v, _ := l.Int64()
+			x, _ := b.Build(literal.Float64, float64(v))
+			ls = append(ls, x)
+			y, _ := b.Build(literal.Text, strconv.FormatInt(v, 10))
+			ls = append(ls, y)
+		case literal.Float64:
+			v, _ := l.Float64()
+			x, _ := b.Build(literal.Float64, -v)
+			ls = append(ls, x)
+		}
+		return ls
+	}
+	nodeSibs := func(n *node.Node) []*node.Node {
+		var ns []*node.Node
+		t, id := n.Type().String(), n.ID().String()
+		if len(id) > 1 {
+			if m, err := node.NewNodeFromStrings(t+id[:1], id[1:]); err == nil {
+				ns = append(ns, m)
+			}
+		}
+		if m, err := node.NewNodeFromStrings(t, id+"x"); err == nil {
+			ns = append(ns, m)
+		}
+		return ns
+	}
+	switch {
+	case v.p != nil:
+		for _, q := range predSibs(v.p) {
+			out = append(out, val{p: q})
+		}
+	case v.l != nil:
+		for _, q := range litSibs(v.l) {
+			out = append(out, val{l: q})
+		}
+	case v.n != nil:
+		for _, q := range nodeSibs(v.n) {
+			out = append(out, val{n: q})
+		}
+	case v.o != nil:
+		if p, err := v.o.Predicate(); err == nil {
+			for _, q := range predSibs(p) {
+				out = append(out, val{o: triple.NewPredicateObject(q)})
+			}
+		}
+		if l, err := v.o.Literal(); err == nil {
+			for _, q := range litSibs(l) {
+				out = append(out, val{o: triple.NewLiteralObject(q)})
+			}
+		}
+		if n, err := v.o.Node(); err == nil {
+			for _, q := range nodeSibs(n) {
+				out = append(out, val{o: triple.NewNodeObject(q)})
+			}
+		}
+	case v.t != nil:
+		for _, q := range predSibs(v.t.Predicate()) {
+			t2, _ := triple.New(v.t.Subject(), q, v.t.Object())
+			out = append(out, val{t: t2})
+		}
+		for _, o := range siblings(val{o: v.t.Object()}) {
+			t2, _ := triple.New(v.t.Subject(), v.t.Predicate(), o.o)
+			out = append(out, val{t: t2})
+		}
+	}
+	return out
+}
+
+type passEntry struct {
+	kind, text string
+	first      string // JSON of the first parse outcome
+	v          val
+}
+
+var passLog []passEntry
+
 func modeValues(n int) {
 	for _, c := range corpusValues() {
-		before := len(seenValueCase)
 		corpusName = c.name
 		emitValue("corpus", c.v)
 		corpusName = ""
-		_ = before
 	}
 	for i := 0; i < n; i++ {
-		emitValue("generated", genVal())
+		v := genVal()
+		emitValue("generated", v)
+		if rnd.Intn(2) == 0 {
+			sibs := siblings(v)
+			rnd.Shuffle(len(sibs), func(a, b int) { sibs[a], sibs[b] = sibs[b], sibs[a] })
+			if len(sibs) > 2 {
+				sibs = sibs[:2]
+			}
+			for _, s := range sibs {
+				emitValue("generated", s)
+			}
+		}
 	}
+	// second pass: every text is parsed again, in reverse order, after everything else went through the parsers in this
+	// process; a parser whose answer depends on earlier calls answers differently now
+	diff := 0
+	for i := len(passLog) - 1; i >= 0; i-- {
+		e := passLog[i]
+		res, v2 := parseKind(e.kind, e.text)
+		b, _ := json.Marshal(res)
+		if string(b) != e.first {
+			diff++
+			if diff <= 20 {
+				j := J{"kind": "value", "src": "second-pass", "vk": e.kind, "v": e.v.obs(), "text": hx(e.text), "parsed": res}
+				tb := newTables()
+				tb.addVal(e.v)
+				tb.addText(e.text)
+				if res["c"] == "ok" {
+					tb.addVal(v2)
+					j["retext"] = hx(v2.str())
+				}
+				j["tables"] = tb.json()
+				emit(j)
+			}
+		}
+	}
+	emit(J{"kind": "secondpass", "texts": len(passLog), "different": diff})
 }
 
 func graphLines(g storage.Graph) (lines []string, ok bool) {
@@ -880,10 +1123,17 @@ func modeGraph(n int) {
 		{"graph-text-cr", []*triple.Triple{mk(litOf(literal.Text, "a\rb\r")), mk(litOf(literal.Text, " x "))}},
 		{"graph-uuid-collision", []*triple.Triple{mk(litOf(literal.Text, "true")), mk(litOf(literal.Bool, true))}},
 	}
-	for i := -len(corpus); i < n; i++ {
+	for i := -len(corpus); i < n+3; i++ {
 		k := rnd.Intn(8)
 		if i >= 0 && i%10 == 0 {
 			k = rnd.Intn(31)
+		}
+		nomodel := false
+		if i == n || i == n+1 {
+			k = 120 + rnd.Intn(60) // text larger than bufio.Scanner's initial 4 KiB buffer: it is refilled while reading
+		}
+		if i == n+2 {
+			k, nomodel = 1500, true // text larger than 64 KiB: several refills; not evaluated by the Coq model (size)
 		}
 		var ts []*triple.Triple
 		name := ""
@@ -893,6 +1143,8 @@ func modeGraph(n int) {
 		for j := 0; j < k; j++ {
 			if len(ts) > 0 && rnd.Intn(8) == 0 {
 				ts = append(ts, ts[rnd.Intn(len(ts))])
+			} else if i >= n {
+				ts = append(ts, genSafeTriple())
 			} else {
 				ts = append(ts, genTriple())
 			}
@@ -917,6 +1169,7 @@ func modeGraph(n int) {
 			emit(J{"kind": "graph", "addpanic": true, "triples": tj, "tables": tb.json()})
 			continue
 		}
+		_ = nomodel
 		stored, _ := graphLines(g)
 		var buf bytes.Buffer
 		wcnt, werr := bwio.WriteGraph(context.Background(), &buf, g)
@@ -924,6 +1177,10 @@ func modeGraph(n int) {
 		if name != "" {
 			j["name"] = name
 		}
+		if nomodel {
+			j["nomodel"] = true
+		}
+		j["textlen"] = buf.Len()
 		var us []string
 		for _, t := range ts {
 			us = append(us, safeUUID(val{t: t}))
@@ -950,6 +1207,21 @@ func modeReader(n int) {
 		"/a<x] /y>\t\"p\"@[]\t/b<c>\n"}
 	for _, f := range fixed {
 		emit(readCase("corpus", f, newTables()))
+	}
+	// texts larger than the scanner's 4 KiB buffer (refilled while reading) and larger than 64 KiB, with a bad line late
+	for _, k := range []int{150, 1500} {
+		var b strings.Builder
+		for j := 0; j < k; j++ {
+			b.WriteString(genSafeTriple().String())
+			b.WriteString("\n")
+			if j == k-3 && k == 150 {
+				b.WriteString("bad line\n")
+			}
+		}
+		r := readCase("big", b.String(), newTables())
+		r["nomodel"] = true
+		r["tables"] = newTables().json()
+		emit(r)
 	}
 	for i := 0; i < n; i++ {
 		k := 1 + rnd.Intn(5)
@@ -1217,6 +1489,86 @@ func modeUUID(n int) {
 	}
 }
 
+// uuidconc mode (runtime part of C06, "the same on every call, in every goroutine"): the UUIDs of a set of values are
+// computed sequentially first and then re-computed from many goroutines at once; every concurrent answer must equal the
+// sequential one.  Large text / blob literals of distinct content make a buffer shared between calls visible.
+func modeUUIDConc(n int) {
+	var vals []val
+	big := func(i, size int) string {
+		b := make([]byte, size)
+		x := uint32(i*2654435761 + 12345)
+		for k := range b {
+			x = x*1664525 + 1013904223
+			b[k] = 'a' + byte(x>>24)%26
+		}
+		return string(b)
+	}
+	s1, _ := node.NewNodeFromStrings("/s", "1")
+	p1, _ := predicate.NewImmutable("p")
+	for i := 0; i < 24; i++ {
+		size := []int{1 << 20, 1 << 18, 1 << 16, 4096}[i%4]
+		var l val
+		if i%3 == 2 {
+			l = litOf(literal.Blob, []byte(big(i, size)))
+		} else {
+			l = litOf(literal.Text, big(i, size))
+		}
+		o := objOf(l)
+		tr, _ := triple.New(s1, p1, o.o)
+		vals = append(vals, l, o, val{t: tr})
+		vals = append(vals, nodeOf("/t"+big(i, 64), big(i+100, size/16)))
+		vals = append(vals, immOf(big(i+200, size/16)), tmpOf(big(i+300, 32), time.Unix(int64(i)*1000003, int64(i)).UTC()))
+	}
+	for i := 0; i < n; i++ {
+		vals = append(vals, genVal())
+	}
+	seq := make([]string, len(vals))
+	for i, v := range vals {
+		seq[i] = v.uuid().String()
+	}
+	procs := runtime.GOMAXPROCS(0)
+	if procs < 4 {
+		runtime.GOMAXPROCS(4)
+	}
+	const G = 64
+	reps := 6
+	var wrong, calls int64
+	var mu sync.Mutex
+	var examples []J
+	var wg sync.WaitGroup
+	for g := 0; g < G; g++ {
+		wg.Add(1)
+		go func(g int) {
+			defer wg.Done()
+			r := rand.New(rand.NewSource(int64(g) + 7))
+			for rep := 0; rep < reps; rep++ {
+				for k := 0; k < len(vals); k++ {
+					i := (k*7 + g*13 + r.Intn(3)) % len(vals)
+					u := func() (s string) {
+						defer func() {
+							if e := recover(); e != nil {
+								s = "panic"
+							}
+						}()
+						return vals[i].uuid().String()
+					}()
+					atomic.AddInt64(&calls, 1)
+					if u != seq[i] {
+						atomic.AddInt64(&wrong, 1)
+						mu.Lock()
+						if len(examples) < 5 {
+							examples = append(examples, J{"vk": vals[i].kind(), "printed_len": len(vals[i].str()), "sequential": seq[i], "concurrent": u})
+						}
+						mu.Unlock()
+					}
+				}
+			}
+		}(g)
+	}
+	wg.Wait()
+	emit(J{"kind": "uuidconc", "values": len(vals), "goroutines": G, "calls": calls, "wrong": wrong, "examples": examples, "gomaxprocs": runtime.GOMAXPROCS(0)})
+}
+
 // hash mode: one hex line per pre-image component list ("aa,bb,cc" = triple of three components); prints the UUID
 func modeHash() {
 	sc := bufio.NewScanner(os.Stdin)
@@ -1321,5 +1673,7 @@ func main() {
 		modeHash()
 	case "stdin":
 		modeStdin()
+	case "uuidconc":
+		modeUUIDConc(*n)
 	}
 }
